@@ -103,7 +103,7 @@ impl<D: DiffHook> Replace<D> {
     /*@*/     requires old(self).core(), !old(self).rst().fin,
     /*@*/     ensures
     /*@*/         final(self).hist_() == old(self).hist_(), final(self).rst0_() == old(self).rst0_(), final(self).rel0_() == old(self).rel0_(),
-    /*@*/         hook_frame(old(self).inner(), final(self).inner(), res), final(self).inner().fobs() == old(self).inner().fobs(),
+    /*@*/         hook_frame(old(self).inner(), final(self).inner(), res), final(self).inner().fobs() == old(self).inner().fobs(), final(self).inner().config() == old(self).inner().config(),
     /*@*/         res.is_ok() ==> final(self).core() && final(self).p_eq() is None
     /*@*/             && final(self).p_del() == old(self).p_del() && final(self).p_ins() == old(self).p_ins()
     /*@*/             && (old(self).p_eq() is Some ==> final(self).xs().last == 1)
@@ -139,7 +139,7 @@ impl<D: DiffHook> Replace<D> {
     /*@*/         old(self).rst().lvl >= 1 ==> old(self).rst().po <= old(self).rst().oc && old(self).rst().pn <= old(self).rst().nc,
     /*@*/     ensures
     /*@*/         final(self).hist_() == old(self).hist_(), final(self).rst0_() == old(self).rst0_(), final(self).rel0_() == old(self).rel0_(),
-    /*@*/         hook_frame(old(self).inner(), final(self).inner(), res), final(self).inner().fobs() == old(self).inner().fobs(),
+    /*@*/         hook_frame(old(self).inner(), final(self).inner(), res), final(self).inner().fobs() == old(self).inner().fobs(), final(self).inner().config() == old(self).inner().config(),
     /*@*/         res.is_ok() ==> final(self).core() && final(self).p_del() is None && final(self).p_ins() is None && final(self).p_eq() == old(self).p_eq()
     /*@*/             && ((old(self).p_del() is Some || old(self).p_ins() is Some) ==> final(self).xs().last == 2)
     /*@*/             && ((old(self).p_del() is None && old(self).p_ins() is None) ==> final(self).em_() == old(self).em_()),
@@ -229,6 +229,10 @@ impl<D: DiffHook> DiffHook for Replace<D> {
     /*@*/ /// the verified envelope: no verified caller can call it
     /*@*/ closed spec fn accepts_replace(&self) -> bool { false }
     /*@*/ #[verifier::prophetic] open spec fn fobs(&self) -> Obs<Self::Error> { self.inner().fobs() }
+    /*@*/ /// configuration: the creator's ghost assignments and the inner hook's configuration
+    /*@*/ closed spec fn config(&self) -> Self {
+    /*@*/     Replace { d: self.d.config(), del: None, ins: None, eq: None, hist: Ghost(Seq::empty()), em: Ghost(Seq::empty()), it0: Ghost(Seq::empty()), rst0: self.rst0, rel0: self.rel0 }
+    /*@*/ }
 
     fn equal(&mut self, old_index: usize, new_index: usize, len: usize) -> (res: Result<(), D::Error>)
     {
